@@ -16,6 +16,7 @@
   (cryptography's `private_bytes` + the PEM reader, passphrases), the digest functions.
 -/
 import PV.Model.PubKeyLemmas
+import PV.Model.KeyWrite
 namespace PV.Props.C36
 open PV PV.Wire PV.Sig PV.KeyUtf8 PV.PubKey
 
@@ -338,5 +339,68 @@ theorem new_file_mode_usual : keyFileMode none 0o022 = 0o600 ∧ keyFileMode non
 
 /-- an existing target keeps its mode (the code documents this: "it will not act like a chmod") -/
 theorem existing_file_keeps_mode (m umask : Nat) : keyFileMode (some m) umask = m := rfl
+
+/-! ## the write path: which serialisation call paramiko makes for which passphrase -/
+
+open PV.KeyWrite in
+private theorem chooseEnc_none_iff (p : Pass) (enc : Enc) (h : chooseEnc p = .ok enc) :
+    enc = .noEncryption ↔ p = .none := by
+  cases p with
+  | none => simp [chooseEnc] at h; subst h; simp
+  | bytes b =>
+    simp only [chooseEnc, KeyWrite.toBytes] at h
+    split at h
+    · simp at h
+    · simp at h; subst h; simp
+  | str b =>
+    simp only [chooseEnc, KeyWrite.toBytes] at h
+    split at h
+    · simp at h
+    · simp at h; subst h; simp
+  | other => simp [chooseEnc, KeyWrite.toBytes] at h
+
+open PV.KeyWrite in
+/-- no passphrase ⇒ `NoEncryption()`; this is the only way an unencrypted file is written -/
+theorem write_unencrypted_iff_none (c : KeyWrite.Cls) (hp : Bool) (p : Pass) (call : Call)
+    (h : writeKey c hp p = .ok call) : call.enc = .noEncryption ↔ p = .none := by
+  unfold writeKey at h
+  cases c <;> simp only at h
+  · split at h
+    · simp at h
+    · next enc he => split at h <;> simp at h; subst h; exact chooseEnc_none_iff p enc he
+  · split at h
+    · simp at h
+    · next enc he => split at h <;> simp at h; subst h; exact chooseEnc_none_iff p enc he
+  · simp at h
+
+open PV.KeyWrite in
+/-- a (non-empty) passphrase, `bytes` or `str`, is handed to `BestAvailableEncryption` as exactly its
+    bytes / its UTF-8 encoding — so the same passphrase given as `str` or as `bytes` protects alike -/
+theorem write_passphrase_encrypts (c : KeyWrite.Cls) (b : Bytes) (hb : b ≠ []) (hc : c ≠ .ed) :
+    writeKey c true (.bytes b) = .ok { enc := .best b } ∧ writeKey c true (.str b) = .ok { enc := .best b } := by
+  cases c <;> simp_all [writeKey, chooseEnc, KeyWrite.toBytes]
+
+open PV.KeyWrite in
+/-- the statement does not cover the empty passphrase: it is refused (`ValueError`), never written
+    unencrypted; a non-bytes/str passphrase is a `TypeError`; Ed25519Key cannot write at all -/
+theorem write_refusals (c : KeyWrite.Cls) (hp : Bool) (hc : c ≠ .ed) :
+    writeKey c hp (.bytes []) = .error .valueError ∧ writeKey c hp (.str []) = .error .valueError ∧
+    writeKey c hp .other = .error .typeError ∧ (∀ p, writeKey .ed hp p = .error .notImplemented) := by
+  cases c <;> simp_all [writeKey, chooseEnc, KeyWrite.toBytes]
+
+open PV.KeyWrite in
+/-- whatever the passphrase and whether or not the write succeeds, a target created by
+    `write_private_key_file` is private to the owner (and an existing one keeps its mode) -/
+theorem write_file_mode (c : KeyWrite.Cls) (hc : c ≠ .ed) (hp : Bool) (p : Pass) (existing : Option Nat) (umask : Nat) :
+    ∃ fa, (writeKeyFile c hp p existing umask).2 = some fa ∧ fa.mode = keyFileMode existing umask ∧
+      (existing = none → fa.mode &&& 0o077 = 0) := by
+  cases c
+  · unfold writeKeyFile
+    simp only
+    split <;> exact ⟨_, rfl, rfl, fun he => by subst he; exact (new_file_private umask).1⟩
+  · unfold writeKeyFile
+    simp only
+    split <;> exact ⟨_, rfl, rfl, fun he => by subst he; exact (new_file_private umask).1⟩
+  · exact absurd rfl hc
 
 end PV.Props.C36
